@@ -313,7 +313,9 @@ def step(ctx, rig, ev, hist):
     v = POOL[ev[1]]
     exc = None
     try:
-        if len(ev) > 2:
+        if len(ev) > 2 and ev[2] == "trait_setq":
+            maybe_threaded(rig, lambda: o.trait_setq(x=v))
+        elif len(ev) > 2:
             maybe_threaded(rig, lambda: o.trait_set(x=v))
         else:
             maybe_threaded(rig, lambda: setattr(o, "x", v))
@@ -365,6 +367,8 @@ def step(ctx, rig, ev, hist):
         old_is_default = False
         verdict = counts_as_change(mode, before, after)
     counts = {h: len(rig.log[h]) for h in HANDLERS}
+    if len(ev) > 2 and ev[2] == "trait_setq":
+        verdict = False         # quiet: nobody is told
     if verdict is None:
         ctx.outcome("eq-raises")
         ctx.nontriv((kind, mode, "eq-raises", ev[1]))
@@ -419,6 +423,11 @@ def events(kind):
         evs.append(("assign", tok))
     for tok in KINDS[kind][1][:3]:
         evs.append(("assign", tok, "trait_set"))
+    if kind in ("Int", "Str", "Float"):
+        # quiet bulk assignment: stores (or rejects) without notifying, and
+        # leaves the object notifying as before
+        for tok in KINDS[kind][1][:2] + KINDS[kind][1][-1:]:
+            evs.append(("assign", tok, "trait_setq"))
     return evs
 
 
@@ -497,7 +506,9 @@ def replay_quiet(rig, ev):
             rig.o.x
         else:
             v = POOL[ev[1]]
-            if len(ev) > 2:
+            if len(ev) > 2 and ev[2] == "trait_setq":
+                maybe_threaded(rig, lambda: rig.o.trait_setq(x=v))
+            elif len(ev) > 2:
                 maybe_threaded(rig, lambda: rig.o.trait_set(x=v))
             else:
                 maybe_threaded(rig, lambda: setattr(rig.o, "x", v))
